@@ -722,11 +722,15 @@ func (view *View) Offset(ctx context.Context, scope *ReferenceScope, clause pars
 
 	if view.RecordLen() <= view.offset {
 		view.RecordSet = RecordSet{}
+		view.sortValuesInEachRecord = nil
 	} else {
 		newSet := view.RecordSet[view.offset:]
 		view.RecordSet = view.RecordSet[:len(newSet)]
 		for i := range newSet {
 			view.RecordSet[i] = newSet[i]
+		}
+		if view.sortValuesInEachRecord != nil {
+			view.sortValuesInEachRecord = view.sortValuesInEachRecord[view.offset:]
 		}
 	}
 	return nil
